@@ -250,6 +250,19 @@ class QueryGen:
                     f"ELSE {self.int_expr(scope, d + 1)} END)")
         raise AssertionError(c)
 
+    def lhs_int(self, scope, d):
+        """Left operand of a predicate; with feature const_pred off it always refers to a column, so
+        that no predicate is a constant the optimizer can fold away."""
+        e = self.int_expr(scope, d)
+        if self.f.get("const_pred", True):
+            return e
+        for _ in range(8):
+            if "." in e:
+                return e
+            e = self.int_expr(scope, d)
+        ints = self.cols_of(scope, lambda t: t in INT_TYPES)
+        return ints[0][0] if ints else e
+
     def str_expr(self, scope, d=0):
         r = self.rng
         strs = self.cols_of(scope, lambda t: t == "VARCHAR")
@@ -267,7 +280,7 @@ class QueryGen:
         if self.f["str_cmp"] and strs and r.random() < 0.25:
             self.tag("str_cmp")
             return f"({r.choice(strs)[0]} {op} {self.str_expr(scope, d + 1)})"
-        return f"({self.int_expr(scope, d + 1)} {op} {self.int_expr(scope, d + 1)})"
+        return f"({self.lhs_int(scope, d + 1)} {op} {self.int_expr(scope, d + 1)})"
 
     def bool_expr(self, scope, d=0):
         r = self.rng
@@ -309,15 +322,15 @@ class QueryGen:
             return f"(NOT {self.bool_expr(scope, d + 1)})"
         if c == "isnull":
             self.tag("isnull")
-            e = r.choice(scope)[0] if r.random() < 0.7 else self.int_expr(scope, d + 1)
+            e = r.choice(scope)[0] if r.random() < 0.7 else self.lhs_int(scope, d + 1)
             return f"({e} IS {'NOT ' if r.random() < 0.4 else ''}NULL)"
         if c == "in_list":
             self.tag("in_list")
             items = ", ".join(self.int_lit() for _ in range(r.randint(1, 3)))
-            return f"({self.int_expr(scope, d + 1)} {'NOT ' if r.random() < 0.3 else ''}IN ({items}))"
+            return f"({self.lhs_int(scope, d + 1)} {'NOT ' if r.random() < 0.3 else ''}IN ({items}))"
         if c == "between":
             self.tag("between")
-            return f"({self.int_expr(scope, d + 1)} BETWEEN {self.int_lit()} AND {self.int_lit()})"
+            return f"({self.lhs_int(scope, d + 1)} BETWEEN {self.int_lit()} AND {self.int_lit()})"
         if c == "like":
             self.tag("like")
             col = r.choice(self.cols_of(scope, lambda t: t == "VARCHAR"))[0]
